@@ -50,6 +50,8 @@ void vp_ctx_init(vp_ctx_t* c, uint64_t seed, uint64_t stream)
     c->th = 0xcbf29ce484222325ull;
 }
 
+volatile unsigned long vp_progress_counter;
+
 static void o_c(vp_ctx_t* c, char ch)
 {
     if (c->outn < VP_OUT_MAX - 2) c->out[c->outn++] = ch;
@@ -246,4 +248,22 @@ uint64_t vp_value_class(vp_rng_t* r, uint32_t cls, uint32_t width)
     case 12: return vp_rng_next(r) & m;
     default: return vp_rng_next(r);
     }
+}
+
+/* ------------------------------------------------------------------ argument evaluation count (bindings) */
+void vp_argeval_report(const char* fn, unsigned got, unsigned expect)
+{
+    static const char* seen[64]; static unsigned nseen;
+    for (unsigned i = 0; i < nseen && i < 64; i++) if (seen[i] == fn) return;
+    if (nseen < 64) seen[nseen++] = fn;
+    char line[256]; size_t n = 0;
+    const char* a = "V|argeval:"; while (*a) line[n++] = *a++;
+    for (const char* q = fn; *q && n < 150; q++) line[n++] = *q;
+    const char* b = ":arguments-evaluated-"; while (*b) line[n++] = *b++;
+    if (got >= 10) line[n++] = (char)('0' + (got / 10) % 10);
+    line[n++] = (char)('0' + got % 10);
+    const char* c2 = "-times-instead-of-"; while (*c2) line[n++] = *c2++;
+    line[n++] = (char)('0' + expect % 10);
+    const char* d = "|{\"note\":\"a function call evaluates every argument exactly once\"}\n"; while (*d) line[n++] = *d++;
+    vp_write(line, n);
 }
